@@ -589,6 +589,25 @@ fn evaluate(
             ));
         }
     }
+    if viol.is_none() && p.opts.check_lin {
+        // C02/C03: every successful mutation gives the item a CAS it has not carried before
+        let mut seen: HashMap<(Vec<u8>, u64), usize> = HashMap::new();
+        for (i, o) in ops.iter().enumerate() {
+            let cmd = &p.prog.clients[o.client][o.index];
+            let mutating = matches!(cmd, Cmd::Store { .. } | Cmd::Concat { .. } | Cmd::Delta { .. });
+            if let (true, Some(r), Some(k)) = (mutating, &o.resp, cmd.key()) {
+                if r.status == 0 && o.cas == 0 {
+                    if let Some(j) = seen.insert((k.to_vec(), r.cas), i) {
+                        viol = Some((
+                            "token-duplicated",
+                            format!("two acknowledged mutations of one key carry the same CAS {}: ops #{} and #{} of {}", r.cas, j, i, show_ops(ops)),
+                        ));
+                        break;
+                    }
+                }
+            }
+        }
+    }
     if viol.is_none() && p.opts.c14 {
         if let Policy::Random(l) = p.cfg.policy {
             let sum: u64 = dump_at_rest.iter().map(|d| d.size()).sum();
